@@ -150,23 +150,21 @@ Qed.
 Print Assumptions C09_members_inherit_settings_refuted.
 
 (* gridpts: the lexicographic Cartesian product -- size, membership, order (last axis fastest), no duplicates when the
-   axes have none; and the loop as written in grid.py computes it whenever no axis is empty *)
+   axes have none; and the loop as written in grid.py (with its empty-axis guard) computes it for every list of axes;
+   the only rejected input is the one without any axis (q[-1] raises IndexError: gridpts_impl [] = None) *)
 Theorem C09_gridpts_is_product : forall (A : Type) (q : list (list A)),
   length (gridpts q) = prod_nat (map (@length A) q) /\
   (forall p, In p (gridpts q) <-> Forall2 (@In A) p q) /\
   (forall js d, Forall2 (fun j ax => j < length ax) js q ->
        nth (grid_rank js (map (@length A) q)) (gridpts q) [] = grid_point d js q) /\
   (Forall (@NoDup A) q -> NoDup (gridpts q)) /\
-  (q <> [] -> Forall (fun ax => ax <> []) q -> gridpts_impl q = Some (gridpts q)).
+  (q <> [] -> gridpts_impl q = Some (gridpts q)).
 Proof. exact gridpts_is_product. Qed.
 Print Assumptions C09_gridpts_is_product.
 
-(* REFUTED for an empty axis: the loop as written returns points of the wrong dimension instead of the empty product
-   (known finding: empty-axis-not-empty-product) *)
-Theorem C09_gridpts_empty_axis_refuted :
-  exists q : list (list nat), In [] q /\ gridpts_impl q <> Some (gridpts q).
-Proof. exact gridpts_impl_refuted. Qed.
-Print Assumptions C09_gridpts_empty_axis_refuted.
+Theorem C09_gridpts_no_axes_rejected : forall A : Type, gridpts_impl (@nil (list A)) = None.
+Proof. exact gridpts_impl_no_axes. Qed.
+Print Assumptions C09_gridpts_no_axes_rejected.
 
 (* lattice: the k-th start point is the centre of its own cell in every coordinate, and lies inside the ranges *)
 Theorem C09_lattice_start_in_own_cell : forall los his ns js pts,
